@@ -27,11 +27,14 @@ def gen_cases(rng, tier):
     return cs
 
 
+SIG_FAR = "callsite:calc_sts_g_functions:heat-leaves-through-the-fixed-far-field-cell"
+
+
 def oracle(chk, c, o):
     n = 0
 
-    def bad(obs, req):
-        chk.violation("radial", c, obs, req)
+    def bad(obs, req, signature=None):
+        chk.violation("radial", c, obs, req, signature=signature)
     rin, rout = o["r_in"], o["r_out"]
     gap = max(abs(a - b) for a, b in zip(rout[:-1], rin[1:]))
     n += 1
@@ -44,8 +47,12 @@ def oracle(chk, c, o):
     if abs(lay / o["Rb"] - 1) > 1e-9:
         bad({"layers_sum": lay, "Rb": o["Rb"]}, "layers between fluid and borehole wall sum to the effective borehole resistance")
     n += 1
-    if abs(o["stored"] / o["injected"] - 1) > 1e-6:
-        bad({"stored": o["stored"], "injected": o["injected"]}, "the response stores exactly the heat injected (1e-6 relative)")
+    if abs((o["stored"] + o["leaked"]) / o["injected"] - 1) > 1e-6:
+        bad({"stored": o["stored"], "left_through_far_field": o["leaked"], "injected": o["injected"]}, "heat stored plus heat that crossed the far-field boundary equals the heat injected (1e-6 relative)")
+    elif abs(o["stored"] / o["injected"] - 1) > 1e-6:
+        # the scheme conserves heat, but the fixed-temperature cell at 10 m lets some of it out of the domain
+        bad({"stored": o["stored"], "left_through_far_field": o["leaked"], "injected": o["injected"], "relative": o["stored"] / o["injected"] - 1},
+            "the response stores exactly the heat injected (1e-6 relative)", signature=SIG_FAR)
     g, gb = o["g"], o["g_bhw"]
     if not all(math.isfinite(v) for v in g + gb):
         bad({"g": g[:5]}, "finite response")
@@ -80,7 +87,7 @@ def run(chk):
     quick = chk.tier == "quick"
     chk.build("C10", extra=["Model/Radial"])
     rng = chk.rng
-    cases = gen_cases(rng, chk.tier)
+    cases = [dict(k["input"]) for k in chk.listed_inputs("radial")] + gen_cases(rng, chk.tier)     # listed findings first
     from concurrent.futures import ThreadPoolExecutor
     with ThreadPoolExecutor(max_workers=NPROC) as ex:
         rs = list(ex.map(lambda c: run_impl("radial_drv.py", {"cases": [c]}, timeout=900), cases))
